@@ -142,62 +142,109 @@ func c10Count(ee *exprEval, scope Scope, arg *sysl.Expr) (int64, bool) {
 	return res.GetI(), true
 }
 
-// set union of integer sets: no duplicates, exactly the members of either operand
+// set union of integer sets: no duplicates, exactly the members of either operand.
+// Either operand may be empty, and a set literal may name an element twice.
 func Harness_C10_SetUnionInt() {
-	a := nd.Int("a", 8)
-	b := nd.Int("b", 8)
-	c := nd.Int("c", 8)
-	nd.Assume(a != b) // operands are sets
+	nl := nd.IntRange("left-size", 0, 2)
+	nr := nd.IntRange("right-size", 0, 2)
+	var all []int64
+	var le, re []*sysl.Expr
+	for i := 0; i < nl; i++ {
+		v := nd.Int("l"+string(rune('0'+i)), 8)
+		all = append(all, v)
+		le = append(le, c10Int(v))
+	}
+	for i := 0; i < nr; i++ {
+		v := nd.Int("r"+string(rune('0'+i)), 8)
+		all = append(all, v)
+		re = append(re, c10Int(v))
+	}
 	ee := c10EE()
-	res, ok := c10Eval(ee, Scope{}, c10Bin(sysl.Expr_BinExpr_BITOR, c10Set(c10Int(a), c10Int(b)), c10Set(c10Int(c))))
+	res, ok := c10Eval(ee, Scope{}, c10Bin(sysl.Expr_BinExpr_BITOR, c10Set(le...), c10Set(re...)))
 	nd.Assert("union:evaluates", ok && res != nil && res.GetSet() != nil)
 	if !ok || res == nil || res.GetSet() == nil {
 		return
 	}
 	vs := res.GetSet().Value
-	wantLen := 3
-	if c == a || c == b {
-		wantLen = 2
+	wantLen := 0
+	for i, v := range all {
+		first := true
+		for j := 0; j < i; j++ {
+			if all[j] == v {
+				first = false
+			}
+		}
+		if first {
+			wantLen++
+		}
 	}
 	nd.Assert("union:size", len(vs) == wantLen)
-	hasA, hasB, hasC := false, false, false
 	for i, v := range vs {
-		nd.Assert("union:member-of-an-operand", v.GetI() == a || v.GetI() == b || v.GetI() == c)
-		if v.GetI() == a {
-			hasA = true
+		member := false
+		for _, w := range all {
+			if v.GetI() == w {
+				member = true
+			}
 		}
-		if v.GetI() == b {
-			hasB = true
-		}
-		if v.GetI() == c {
-			hasC = true
-		}
+		nd.Assert("union:member-of-an-operand", member)
 		for j := 0; j < i; j++ {
 			nd.Assert("union:no-duplicates", vs[j].GetI() != v.GetI())
 		}
 	}
-	nd.Assert("union:complete", hasA && hasB && hasC)
+	for _, w := range all {
+		has := false
+		for _, v := range vs {
+			if v.GetI() == w {
+				has = true
+			}
+		}
+		nd.Assert("union:complete", has)
+	}
 }
 
 func Harness_C10_SetUnionString() {
-	a := nd.String("a", 1)
-	b := nd.String("b", 1)
-	c := nd.String("c", 1)
-	nd.Assume(a != b)
+	nl := nd.IntRange("left-size", 0, 2)
+	nr := nd.IntRange("right-size", 0, 2)
+	var all []string
+	var le, re []*sysl.Expr
+	for i := 0; i < nl; i++ {
+		v := nd.String("l"+string(rune('0'+i)), 1)
+		all = append(all, v)
+		le = append(le, c10Str(v))
+	}
+	for i := 0; i < nr; i++ {
+		v := nd.String("r"+string(rune('0'+i)), 1)
+		all = append(all, v)
+		re = append(re, c10Str(v))
+	}
 	ee := c10EE()
-	res, ok := c10Eval(ee, Scope{}, c10Bin(sysl.Expr_BinExpr_BITOR, c10Set(c10Str(a), c10Str(b)), c10Set(c10Str(c))))
+	res, ok := c10Eval(ee, Scope{}, c10Bin(sysl.Expr_BinExpr_BITOR, c10Set(le...), c10Set(re...)))
 	nd.Assert("union:evaluates", ok && res != nil && res.GetSet() != nil)
 	if !ok || res == nil || res.GetSet() == nil {
 		return
 	}
 	vs := res.GetSet().Value
-	wantLen := 3
-	if c == a || c == b {
-		wantLen = 2
+	wantLen := 0
+	for i, v := range all {
+		first := true
+		for j := 0; j < i; j++ {
+			if all[j] == v {
+				first = false
+			}
+		}
+		if first {
+			wantLen++
+		}
 	}
 	nd.Assert("union:size", len(vs) == wantLen)
 	for i, v := range vs {
-		nd.Assert("union:member-of-an-operand", v.GetS() == a || v.GetS() == b || v.GetS() == c)
+		member := false
+		for _, w := range all {
+			if v.GetS() == w {
+				member = true
+			}
+		}
+		nd.Assert("union:member-of-an-operand", member)
 		for j := 0; j < i; j++ {
 			nd.Assert("union:no-duplicates", vs[j].GetS() != v.GetS())
 		}
